@@ -4,7 +4,7 @@
 From Coq Require Import List Arith ZArith Bool.
 Import ListNotations.
 From Acts.Gen Require Import GenState.
-From Acts.Model Require Import Engine.
+From Acts.Model Require Import Engine Serde.
 
 Inductive step :=
   Step (id : nat) (sif : cond) (next : option nat) (ins outs : vars) (setup : list aspec)
@@ -40,6 +40,28 @@ Definition st_id s := match s with Step id _ _ _ _ _ _ _ _ _ => id end.
 Definition br_id b := match b with Branch id _ _ _ _ => id end.
 Definition ac_id a := match a with Act id _ _ _ _ _ _ _ _ => id end.
 
+(* fold with failure: None once a step failed *)
+Definition ofold {S X : Type} (g : X -> S -> option S) (l : list X) (s : option S) : option S :=
+  fold_left (fun acc x => match acc with None => None | Some st => g x st end) l s.
+Definition otbl {A} (r : option (tbl * A)) : option tbl := match r with Some (t, _) => Some t | None => None end.
+
+(* the stages of build_step / build_act, parameterised by the recursive builders *)
+Definition step_builder := step -> tbl -> nat -> nat -> nat -> okind -> option (tbl * nat).
+Definition steps_under (bs : step_builder) (me lvl : nat) (k : okind) (steps : list step) (t : tbl) : option tbl :=
+  otbl (ofold (fun st (x : tbl * nat) => bs st (fst x) me (snd x) lvl k) steps (Some (t, me))).
+Definition catches_under (bs : step_builder) (me lvl : nat) (catches : list catch) (r : option tbl) : option tbl :=
+  ofold (fun c t => match c with Catch on steps => steps_under bs me lvl (OCatch on) steps t end) catches r.
+Definition tmos_under (bs : step_builder) (me lvl : nat) (tmos : list tmo) (r : option tbl) : option tbl :=
+  ofold (fun c t => match c with Tmo on _ steps => steps_under bs me lvl (OTimeout on) steps t end) tmos r.
+Definition acts_under (ba : act -> tbl -> nat -> nat -> nat -> option (tbl * nat)) (me lvl : nat) (acts : list act) (r : option tbl) : option tbl :=
+  otbl (ofold (fun a (st : tbl * nat) => ba a (fst st) me (snd st) lvl) acts (match r with Some t => Some (t, me) | None => None end)).
+Definition branches_under (bb : branch -> tbl -> nat -> nat -> option tbl) (me lvl : nat) (branches : list branch) (t : tbl) : option tbl :=
+  ofold (fun b t => bb b t me lvl) branches (Some t).
+(* an explicit `next` refers to a node that exists already *)
+Definition explicit_next (t : tbl) (me target : nat) : tbl :=
+  match index_of t target 0 with Some j => t_set_next t me j | None => t end.
+Definition with_me (me : nat) (r : option tbl) : option (tbl * nat) := match r with Some t => Some (t, me) | None => None end.
+
 (* state threaded through the construction: the table (None = failed) and the `prev` cursor *)
 Fixpoint build_step (f : nat) (s : step) (t : tbl) (parent prev lvl : nat) (k : okind) {struct f} : option (tbl * nat) :=
   match f with
@@ -52,41 +74,11 @@ Fixpoint build_step (f : nat) (s : step) (t : tbl) (parent prev lvl : nat) (k : 
       let n := Build_node id KStep lvl [] None sif false [] dspec (map (fun c => match c with Catch on _ => on end) catches)
                           (map (fun x => match x with Tmo on lim _ => (on, lim) end) timeouts) setup ins outs [] false in
       let t := link (t ++ [n]) parent prev me lvl k in
-      (* an explicit `next` refers to a node that exists already; then the branches are not built *)
-      let r :=
-        match nxt with
-        | Some target =>
-            Some (match index_of t target 0 with Some j => t_set_next t me j | None => t end)
-        | None =>
-            fold_left (fun acc b => match acc with
-                                    | None => None
-                                    | Some t => build_branch f b t me (S lvl)
-                                    end) branches (Some t)
-        end in
-      let r := fold_left (fun acc a => match acc with
-                                       | None => None
-                                       | Some (t, ap) => build_act f a t me ap (S lvl)
-                                       end) acts (match r with Some t => Some (t, me) | None => None end) in
-      let r := match r with Some (t, _) => Some t | None => None end in
-      let r := fold_left (fun acc c => match acc, c with
-                                       | None, _ => None
-                                       | Some t, Catch on steps =>
-                                           match fold_left (fun acc2 st => match acc2 with
-                                                                          | None => None
-                                                                          | Some (t, cp) => build_step f st t me cp (S lvl) (OCatch on)
-                                                                          end) steps (Some (t, me)) with
-                                           | Some (t, _) => Some t | None => None end
-                                       end) catches r in
-      let r := fold_left (fun acc c => match acc, c with
-                                       | None, _ => None
-                                       | Some t, Tmo on _ steps =>
-                                           match fold_left (fun acc2 st => match acc2 with
-                                                                          | None => None
-                                                                          | Some (t, cp) => build_step f st t me cp (S lvl) (OTimeout on)
-                                                                          end) steps (Some (t, me)) with
-                                           | Some (t, _) => Some t | None => None end
-                                       end) timeouts r in
-      match r with Some t => Some (t, me) | None => None end
+      let t := match nxt with Some target => explicit_next t me target | None => t end in
+      let r := branches_under (build_branch f) me (S lvl) branches t in
+      with_me me (tmos_under (build_step f) me (S lvl) timeouts
+                   (catches_under (build_step f) me (S lvl) catches
+                      (acts_under (build_act f) me (S lvl) acts r)))
     end
   end
 with build_branch (f : nat) (b : branch) (t : tbl) (parent lvl : nat) {struct f} : option tbl :=
@@ -99,11 +91,7 @@ with build_branch (f : nat) (b : branch) (t : tbl) (parent lvl : nat) {struct f}
       let me := length t in
       let n := Build_node id KBranch lvl [] None bif els needs dspec [] [] [] [] [] [] false in
       let t := t_add_child (t ++ [n]) parent ONormal me in
-      match fold_left (fun acc st => match acc with
-                                     | None => None
-                                     | Some (t, sp) => build_step f st t me sp (S lvl) ONormal
-                                     end) steps (Some (t, me)) with
-      | Some (t, _) => Some t | None => None end
+      steps_under (build_step f) me (S lvl) ONormal steps t
     end
   end
 with build_act (f : nat) (a : act) (t : tbl) (parent prev lvl : nat) {struct f} : option (tbl * nat) :=
@@ -118,32 +106,27 @@ with build_act (f : nat) (a : act) (t : tbl) (parent prev lvl : nat) {struct f} 
                           (map (fun x => match x with Tmo on lim _ => (on, lim) end) timeouts) setup ins outs
                           (match params with Some p => p | None => [] end) (match params with Some _ => true | None => false end) in
       let t := link (t ++ [n]) parent prev me lvl ONormal in
-      let r := fold_left (fun acc c => match acc, c with
-                                       | None, _ => None
-                                       | Some t, Catch on steps =>
-                                           match fold_left (fun acc2 st => match acc2 with
-                                                                          | None => None
-                                                                          | Some (t, cp) => build_step f st t me cp (S lvl) (OCatch on)
-                                                                          end) steps (Some (t, me)) with
-                                           | Some (t, _) => Some t | None => None end
-                                       end) catches (Some t) in
-      let r := fold_left (fun acc c => match acc, c with
-                                       | None, _ => None
-                                       | Some t, Tmo on _ steps =>
-                                           match fold_left (fun acc2 st => match acc2 with
-                                                                          | None => None
-                                                                          | Some (t, cp) => build_step f st t me cp (S lvl) (OTimeout on)
-                                                                          end) steps (Some (t, me)) with
-                                           | Some (t, _) => Some t | None => None end
-                                       end) timeouts r in
-      match r with Some t => Some (t, me) | None => None end
+      with_me me (tmos_under (build_step f) me (S lvl) timeouts (catches_under (build_step f) me (S lvl) catches (Some t)))
     end
   end.
 
 Definition build_tree (f : nat) (w : workflow) : option tbl :=
   let root := Build_node (w_id w) KWorkflow 0 [] None None false [] dspec [] [] (w_setup w) (w_ins w) (w_outs w) [] false in
-  match fold_left (fun acc st => match acc with
-                                 | None => None
-                                 | Some (t, sp) => build_step f st t 0 sp 1 ONormal
-                                 end) (w_steps w) (Some ([root], 0)) with
-  | Some (t, _) => Some t | None => None end.
+  otbl (ofold (fun st (x : tbl * nat) => build_step f st (fst x) 0 (snd x) 1 ONormal) (w_steps w) (Some ([root], 0))).
+
+(* NodeTree::load: the `on` acts of the workflow are registered first (each needs an id, 0 stands for
+   the empty string), then the workflow and its steps; any id met twice fails the load *)
+Fixpoint nodupb (l : list nat) : bool :=
+  match l with [] => true | x :: r => negb (existsb (Nat.eqb x) r) && nodupb r end.
+Definition build_model (f : nat) (on : list nat) (w : workflow) : option tbl :=
+  if existsb (Nat.eqb 0) on then None
+  else if negb (nodupb on) then None
+  else match build_tree f w with
+       | Some t => if existsb (has_id t) on then None else Some t
+       | None => None
+       end.
+
+(* what deploy sees of a workflow: valid when it has an id (0 = empty) and its tree can be built *)
+Definition dmodel_of (f : nat) (on : list nat) (w : workflow) (ver text : nat) : dmodel :=
+  {| d_id := w_id w; d_ver := ver; d_text := text; d_on := on;
+     d_valid := negb (Nat.eqb (w_id w) 0) && match build_model f on w with Some _ => true | None => false end |}.
